@@ -1164,3 +1164,46 @@ def defaults_families():
 FAMILY_PATHS = ["/f/", "/f", "/f/page/1", "/f/page/2", "/f/page/01", "/f/page/1/", "/f/sort/new", "/f/sort/old", "/f/sort/new/",
                 "/f/new/1", "/f/new/2", "/f/old/1", "/f/old/2", "/f/new/01", "/f/new/1/", "/f//new/1", "/f/page//1",
                 "/f/sort/1", "/f/page/new", "//evil.com/f/new/1", "/f/sort/page", "/f/page/1/2"]
+
+
+# ---------------------------------------------------------------------------- C03: same converter, same keyword names, different values
+def same_converter_groups():
+    """Deterministic maps of 2-3 rules whose variables use the SAME converter with the same keyword names and DIFFERENT
+    values, in both insertion orders, as leaf and branch, with the same / different prefixes and inside one rule;
+    paths carry values only the first admits, only the second, both, neither.  Yields (rules, paths)."""
+    V = var
+    pairs = [
+        (lambda n: V("strlen", n, n=2), lambda n: V("strlen", n, n=3), ["ab", "abc", "a", "abcd"]),
+        (lambda n: V("strlen", n, n=3), lambda n: V("strlen", n, n=1), ["abc", "a", "ab", "abcd"]),
+        (lambda n: V("string", n, n=1, m=2), lambda n: V("string", n, n=1, m=3), ["ab", "abc", "a", "abcd"]),
+        (lambda n: V("string", n, n=2, m=3), lambda n: V("string", n, n=1, m=1), ["abc", "a", "ab", "abcd"]),
+        (lambda n: V("string", n, n=3, m=0), lambda n: V("string", n, n=2, m=0), ["ab", "abc", "a", "abcd"]),
+        (lambda n: V("int", n, n=4), lambda n: V("int", n, n=2), ["0042", "42", "007", "7", "12345"]),
+        (lambda n: V("int", n, n=1), lambda n: V("int", n, n=3), ["7", "007", "42", "0042"]),
+        (lambda n: V("any", n, items=["a", "ab"]), lambda n: V("any", n, items=["b", "abc"]), ["a", "ab", "b", "abc", "c"]),
+    ]
+    out = []
+    for A, B, vals in pairs:
+        for branch in (False, True):
+            shapes = [
+                # different prefixes
+                ([rule([lit("a"), A("x")], branch=branch), rule([lit("b"), B("y")], branch=branch)],
+                 ["/a/" + v for v in vals] + ["/b/" + v for v in vals]),
+                # same prefix, told apart by what follows
+                ([rule([lit("p"), A("x"), lit("one")], branch=branch), rule([lit("p"), B("y"), lit("two")], branch=branch)],
+                 ["/p/" + v + "/one" for v in vals] + ["/p/" + v + "/two" for v in vals]),
+                # same position: both may admit the value (a tie the contract leaves open), or only one
+                ([rule([lit("q"), A("x")], branch=branch), rule([lit("q"), B("y")], branch=branch)],
+                 ["/q/" + v for v in vals]),
+                # both in one rule + a third rule with the second value again
+                ([rule([A("x"), B("y")], branch=branch), rule([lit("z"), B("w")], branch=branch)],
+                 ["/" + v + "/" + w for v in vals[:3] for w in vals[:3]] + ["/z/" + v for v in vals]),
+                # affixed variants
+                ([rule([dict(A("x"), pre="v")], branch=branch), rule([dict(B("y"), post=".x")], branch=branch)],
+                 ["/v" + v for v in vals] + ["/" + v + ".x" for v in vals]),
+            ]
+            for rules, paths in shapes:
+                paths = paths + [p + "/" for p in paths[::2]]
+                for order in (rules, rules[::-1]):
+                    out.append(([dict(r) for r in order], paths))
+    return out
